@@ -530,6 +530,7 @@ func init() {
 			rules.M4(rc, mGroup("arith", "minmax"), 16)
 			rules.K1op(rc, []string{"api_arith.go", "api_minmax.go", "dense_arith.go", "defaultengine_arith.go", "defaultengine_minmax.go"}, 20)
 			rules.K5(rc, map[string]bool{"eng_arith.go": true, "eng_minmaxbetween.go": true}, 10)
+			rules.K4(rc, []string{"eng_arith.go", "eng_minmaxbetween.go"}, 400)
 			rules.K11(rc)
 		},
 	})
@@ -550,6 +551,7 @@ func init() {
 			rules.M4(rc, mGroup("cmp"), 12)
 			rules.K1op(rc, []string{"api_cmp.go", "dense_cmp.go", "defaultengine_cmp.go"}, 20)
 			rules.K5(rc, map[string]bool{"eng_cmp.go": true}, 10)
+			rules.K4(rc, []string{"eng_cmp.go"}, 340)
 			rules.K11(rc)
 		},
 	})
@@ -570,6 +572,7 @@ func init() {
 			rules.P3map(rc)
 			rules.K1op(rc, []string{"api_unary.go", "defaultengine_unary.go", "defaultengine_misc.go"}, 10)
 			rules.K5(rc, map[string]bool{"eng_unary.go": true, "eng_map.go": true}, 10)
+			rules.K4(rc, []string{"eng_unary.go"}, 200)
 			rules.K11(rc)
 		},
 	})
@@ -591,6 +594,7 @@ func init() {
 			rules.K5(rc, map[string]bool{"eng_arith.go": true, "eng_cmp.go": true, "eng_unary.go": true, "eng_minmaxbetween.go": true, "eng_map.go": true, "eng_reduce.go": true, "eng_argmethods.go": true, "reduction_specialization.go": true}, 100)
 			rules.K11(rc)
 			rules.K1op(rc, []string{"api_arith.go", "api_cmp.go", "api_unary.go", "api_minmax.go", "dense_arith.go", "dense_cmp.go", "defaultengine_arith.go", "defaultengine_cmp.go", "defaultengine_unary.go", "defaultengine_minmax.go"}, 90)
+			rules.K4(rc, []string{"eng_arith.go", "eng_minmaxbetween.go", "eng_cmp.go", "eng_unary.go"}, 1000)
 		},
 	})
 }
